@@ -154,6 +154,10 @@ def enabled(ref: RefGroupedList, U, tier):
             yield ["update", [[k, list(m) + [v]]]]
     if len(newv) >= 2:
         yield ["update", [[newv[0], [newv[1], newv[0]]]]]
+    for a, b in itertools.permutations(newv[: 2 if tier == "quick" else 3], 2):  # several new leaders in one call: appended in the order given
+        yield ["update", [[a, [a]], [b, [b]]]]
+    if len(newv) >= 3:
+        yield ["update", [[newv[2], [newv[2]]], [newv[0], [newv[0]]], [newv[1], [newv[1]]]]]
     for k, m in ref.g:  # re-partition: a member is split off into a group of its own
         others = [x for x in m if norm(x) != norm(k)]
         if others:
@@ -319,6 +323,20 @@ def expand(hist):
             results.append((g2, errs))
         (ga, ea), (gb, eb) = results
         errs = ea or eb
+        if not errs and len(hist) <= 2:
+            # a second object built from the first one's live `content` dict lives its own life
+            try:
+                other = GL()(gl.content)
+            except Exception:  # noqa
+                other = None
+            if other is not None:
+                try:
+                    apply_real(other, ev)
+                except Exception:  # noqa  (the dict constructor orders leaders by content: the event may not be valid for it)
+                    pass
+                if canon_real(gl) != base:
+                    errs = [f"aliasing: operation on GroupedList(first.content) changed the first object"]
+                    gl, _ = build(hist)
         if not errs and canon_real(ga) != canon_real(gb):
             errs = [f"copy-constructed object diverges from original after {ev[0]}"]
         if errs:
